@@ -119,6 +119,19 @@ def _desc_origin(B, o, vname):
         if rv.get('adt', '').endswith('OwnedTerm') and rv['var'] == 'Integer':
             inner = B.origin(rv['ops'][0])
             c = fold(inner)
+            if c is None:
+                # `tag as i64` of an enum literal handed to a (spliced-in) helper: the discriminant of that variant
+                x = inner
+                while x[0] == 'cast':
+                    x = x[3]
+                if x[0] == 'discr' and isinstance(x[1], tuple) and x[1][0] == 'agg' and x[1][1].get('ak') == 'adt' and _PROGRAM is not None:
+                    ad = _PROGRAM.F.adts.get(x[1][1].get('adt'))
+                    vi = x[1][1].get('vi')
+                    if ad and vi is not None and vi < len(ad['variants']):
+                        try:
+                            c = int(ad['variants'][vi]['discr'])
+                        except Exception:
+                            c = None
             if c is not None:
                 return ('int_const', c)
             d = _desc_origin(B, inner, vname)
